@@ -2,6 +2,7 @@ package sql
 
 import (
 	"strings"
+	"sync/atomic"
 	"testing"
 	"unicode/utf8"
 
@@ -16,7 +17,35 @@ var replayers = report.Replayers
 // TestReplay re-executes a stored violation without the PBT library.
 func TestReplay(t *testing.T) { report.RunReplay(t) }
 
+// histCalls counts toPG / toPGParam calls. Every other call (the first one of a
+// process included, so that a replayed case sees the same history) is preceded by
+// the OTHER renderer on an unrelated query with the opposite default-field choice:
+// what a renderer returns for s must not depend on what was rendered before it
+// (a driver that keeps per-call state in its shared function map, a parser or a cache
+// that remembers the previous default field, shared leaves rewritten in place ...).
+// "zzhist" is a field name no generator uses.
+var histCalls atomic.Uint64
+
+const histQuery = `hz:h*y? OR hr:/h.*/ OR 7:[1 TO 7] OR hq "h p" OR hl:(1 OR b OR 2.5)`
+
+func disturbHistory(df string, param bool) {
+	defer func() { _ = recover() }()
+	switch {
+	case param && df == "":
+		_, _ = lucene.ToPostgres(histQuery, lucene.WithDefaultField("zzhist"))
+	case param:
+		_, _ = lucene.ToPostgres(histQuery)
+	case df == "":
+		_, _, _ = lucene.ToParameterizedPostgres(histQuery, lucene.WithDefaultField("zzhist"))
+	default:
+		_, _, _ = lucene.ToParameterizedPostgres(histQuery)
+	}
+}
+
 func toPG(s, df string) (string, error) {
+	if histCalls.Add(1)%2 == 1 {
+		disturbHistory(df, false)
+	}
 	if df == "" {
 		return lucene.ToPostgres(s)
 	}
@@ -24,6 +53,9 @@ func toPG(s, df string) (string, error) {
 }
 
 func toPGParam(s, df string) (string, []any, error) {
+	if histCalls.Add(1)%2 == 1 {
+		disturbHistory(df, true)
+	}
 	if df == "" {
 		return lucene.ToParameterizedPostgres(s)
 	}
